@@ -15,6 +15,14 @@ def run(tier, replay=None):
     cases = T.corpus(c, thorough, False)
     tr = T.observe(c, cases, 70, 0, limit=None if thorough else 8)
     T.validate(c, "C17", tr)
+    # PhantomData erasure by the derive (members of structs and variants, also behind Box/&)
+    from checks import derivecommon as DC
+    decls = DC.declarations(c, tier, with_encoded_as=False, nrand=400 if thorough else 120)
+    decls = [d for d in decls if "phantom" in __import__("json").dumps(d)]
+    for i, d in enumerate(decls): d["id"] = i
+    tr2, failed = DC.observe(c, decls, False, 0)
+    if failed: raise vlib.ToolError("derive program does not compile: %s" % failed[0][0])
+    DC.validate_all(c, "C17", tr2)
     c.cov["exhaustive"] = True
     c.cov["rule"] = "complete exploration of the builder automaton (FieldBuilder, FieldsBuilder, VariantBuilder, Variants, TypeBuilder; compile-time and portable form; docs feature off and on) up to %d calls per builder over a small argument alphabet incl. two PhantomData spellings: every complete legal sequence rendered, compiled and run, the built value compared with the specification's; built-in impls: no observed definition lists a PhantomData member" % maxcalls
     c.assumptions += ["nested closures are drawn from fixed sets of inner sequences", "erasure by the derive is exercised by C09's generated programs"]
